@@ -383,27 +383,61 @@ def run(ctx):
         cb = ctx.hir(HUFE + "::HuffmanTable::can_encode")
         ix = hq.Index(cb)
         cf = hq.Canon(cb, force=True)
-        loops = [x for x in hq.find(cb["body"], lambda x: x.get("k") == "For")]
-        zipc = cf(loops[0]["iter"]) if len(loops) == 1 else ""
-        m = re.match(r"^core::iter::traits::iterator::Iterator::zip\((.*), (.*)\)$", zipc)
-        pos = {}
-        if m:
-            for i_, part in enumerate(m.groups()):
-                pos[str(i_)] = "other" if "$0.codes" in part else ("self" if "self.codes" in part else "?")
+        # the pairing of the two code tables: `A.iter().zip(B.iter())`, consumed by a `for` pattern or by the item
+        # parameter of a closure (try_fold / all / any ...); which pattern variable comes from which table
+        zips = [x for x in hq.find(cb["body"], lambda x: x.get("k") == "MethodCall" and x["name"] == "zip" and len(x.get("args") or ()) == 1)]
+        if len(zips) != 1:
+            raise Anchor("can_encode does not pair the two code tables with one zip")
+        tab = lambda e: "other" if "$0.codes" in cf(e) else ("self" if "self.codes" in cf(e) else "?")
+        pos = {0: tab(zips[0]["recv"]), 1: tab(zips[0]["args"][0])}
+        item = None
+        for x in hq.find(cb["body"], lambda x: x.get("k") == "For" and any(y is zips[0] for y, _ in H.walk(x["iter"]))):
+            item = x["pat"]
+        if item is None:
+            for x in hq.find(cb["body"], lambda x: x.get("k") == "MethodCall" and any(y is zips[0] for y, _ in H.walk(x["recv"])) and
+                             any(hq.peel(a_).get("k") == "Closure" for a_ in x.get("args") or ())):
+                cl = next(hq.peel(a_) for a_ in x["args"] if hq.peel(a_).get("k") == "Closure")
+                ps = cl.get("params") or []
+                if ps:
+                    item = ps[-1].get("pat") or ps[-1]
+        while isinstance(item, dict) and item.get("k") in ("Ref", "Deref") and item.get("pat") is not None:
+            item = item["pat"]
+        parts = (item.get("pats") or item.get("elems") or []) if isinstance(item, dict) and item.get("k") in ("Tuple", "Tup") else []
+        if len(parts) != 2:
+            raise Anchor("the zipped pair is not destructured by a two-element pattern")
+        lid_side = {}
+        for i_, part in enumerate(parts):
+            for y in (part if isinstance(part, list) else [part]):
+                stack = [y]
+                while stack:
+                    z = stack.pop()
+                    if isinstance(z, dict):
+                        if z.get("k") == "Bind" and "lid" in z:
+                            lid_side[z["lid"]] = pos[i_]
+                        stack.extend(v for v in z.values() if isinstance(v, (dict, list)))
+                    elif isinstance(z, list):
+                        stack.extend(z)
 
         def side(e):
+            e = hq.peel(e)
+            while e.get("k") in ("Unary", "AddrOf", "Cast", "Field"):
+                e = hq.peel(e["e"])
+            if e.get("k") == "Local" and e["lid"] in lid_side:
+                return lid_side[e["lid"]]
             c = cf(e)
-            z = re.search(r"Iterator::zip.*\[\*\]\.(\d)\.1$", c)
-            if z:
-                return pos.get(z.group(1), "?")
-            return "other" if "$0.codes" in c else ("self" if "self.codes" in c else "?")
-        found = []
-        for g in ix.all_guards() if False else []:
-            pass
-        # the refusing exit inside the loop: `other has a code (bits != 0) && self has none (bits == 0)` -> None
+            return "other" if "$0.codes" in c and "self.codes" not in c else ("self" if "self.codes" in c and "$0.codes" not in c else "?")
+
+        def yields_none(bl):
+            if ix.diverges(bl):
+                return "None" in H.show(bl)
+            v = hq.peel(bl)
+            while v.get("k") == "Block" and v.get("expr") is not None:
+                v = hq.peel(v["expr"])
+            return v.get("k") in ("Item", "Path") and (v.get("path") or "").endswith("Option::None")
+        # the refusing exit: `other has a code (bits != 0) && self has none (bits == 0)` -> None
         refusals = []
-        for x in hq.find(cb["body"], lambda x: x.get("k") == "If" and loops and loops[0]["sp"][0] <= x["sp"][0] <= loops[0]["sp"][1]):
-            if not (ix.diverges(x["then"]) and "None" in H.show(x["then"])):
+        for x in hq.find(cb["body"], lambda x: x.get("k") == "If"):
+            if not yields_none(x["then"]):
                 continue
             atoms = []
             for cc in ix.split_and(x["cond"]):
@@ -413,7 +447,8 @@ def run(ctx):
                     v, other_e = (l, r) if H.lit_val(l) == 0 else ((r, l) if H.lit_val(r) == 0 else (None, None))
                     if v is not None:
                         atoms.append((e["op"], side(other_e)))
-            refusals.append(sorted(atoms))
+            if atoms:
+                refusals.append(sorted(atoms))
         want = [sorted([("!=", "other"), ("==", "self")])]
         ctx.check(refusals == want, RU, "can_encode::refuses-when-self-lacks-a-code-other-uses", cb["file"],
                   "self.can_encode(other) must return None when some symbol has a code in `other` (bits != 0) but none in `self` (bits == 0)",
